@@ -643,7 +643,7 @@ def _variable_usage_tables(ck, repo):
     rel = RULES_PKG + "all_variable_usages_are_allowed.py"
     u = repo.func(rel, "_validate_usage")
     uv = FuncView(u)
-    a, v = u.positional_params
+    a, v = u.positional_params[:2]   # (a rule written with more parameters is judged on these two: the usage record and the variable definition)
     atoms = Atoms({
         f"isinstance({a}.gql_type, GraphQLNonNull)": "loc_non_null",
         f"isinstance({v}.type, NonNullTypeNode)": "var_non_null",
